@@ -5,7 +5,7 @@ import "gosym/sym"
 func init() {
 	Register(&Spec{
 		ID:    "C10",
-		Level: "model_checking",
+		Level: "model_checking", CrossSolver: true,
 		Explanation: "bounded symbolic execution of linear.TransformImageColor for concrete geometries with every byte of source, destination and destination-parent storage symbolic and a per-colour function with symbolic keys (XOR with eight symbolic key bytes: arbitrary and injective per channel): the destination parent's storage after the call is asserted equal, byte for byte, to a reference obtained by storing dst.ColorModel's conversion of f(src.At(p)) at dst.Min+(p-src.Min) with the standard library's Set on a copy, which also proves every other byte unchanged. In-place use is compared with the function of the original pixels. The eight public image transforms are checked to be TransformImageColor with their package's own per-colour function (those functions replaced by uninterpreted functions)",
 		Bounds: func(tier string) map[string]interface{} {
 			if tier == "thorough" {
